@@ -2034,6 +2034,22 @@ class Interp:
         E["builtins.repr"] = lambda I, a, k, n: Opaque("str")
         E["builtins.bool"] = lambda I, a, k, n: I.truth(a[0], n) if a else False
         E["builtins.getattr"] = b_getattr
+        E["builtins.setattr"] = lambda I, a, k, n: I.setattr_(a[0], a[1], a[2], n)
+
+        def b_iter(I, a, k, n):
+            if len(a) == 1:
+                return list(I.iterate(a[0], n))
+            out = []
+            for _ in range(2000):       # iter(callable, sentinel)
+                v = I.call_value(a[0], [], {}, n)
+                e = I.py_eq(v, a[1])
+                if e is True:
+                    return out
+                if e is None:
+                    I.err(n, "iter(callable, sentinel): cannot decide whether the sentinel was reached")
+                out.append(v)
+            I.err(n, "iter(callable, sentinel) does not terminate")
+        E["builtins.iter"] = b_iter
         E["builtins.hasattr"] = b_hasattr
         E["builtins.any"] = b_any
         E["builtins.all"] = b_all
